@@ -54,18 +54,25 @@ var bodies = []body{
 	{"(.[0]? |= 5)", false}, {". as $x | [$x, $x]", false}, {"if type == \"number\" and . % 2 == 0 then empty else . end", false},
 	{".[]?", false}, {"error", true}, {"(., error)", false}, {"first(.[]?)", false}, {".a?", false}, {"[[.]]", false},
 	{"if type == \"array\" then empty else [.] end", false}, {"not", true}, {"type", true},
+	// bodies that return a PREFIX or INNER slice of their input (the value shares the backing array of a
+	// container the reduction may own: defect repaired by 73ac0b6)
+	{".[:1]?", false}, {".[0:1]?", false}, {".[:2]?", false}, {".[1:2]?", false}, {".[:-1]?", false},
+	{"if type == \"array\" then .[:1] else 10 end", false}, {"if type == \"array\" then .[0:2] else . end", false},
 }
 
 var assignRhs = []body{{"7", true}, {"(1,2)", true}, {".", false}, {".a?", false}, {"[.]", false}, {"empty", true}, {"null", true},
-	{".[0]?", false}, {"{a:1}", false}, {"[1,[2]]", false}, {"error", true}, {"(.[]?)", false}}
+	{".[0]?", false}, {"{a:1}", false}, {"[1,[2]]", false}, {"error", true}, {"(.[]?)", false}, {".[:1]?", false}, {".[1:2]?", false}}
 
 var arithOps = []string{"+", "-", "*", "/", "%", "//"}
 var arithRhs = []string{"1", "2", "(1,2)", "null", "[9]", "{c:1}", "\"s\"", ".", "length", "empty", ".[0]?", "0"}
 
 type gen struct {
-	r       *Rng
-	safeNew bool    // heap stream: new values never contain a container made during the run
-	objs    []*hobj // heap stream: the objects of the initial heap
+	r                  *Rng
+	safeNew            bool    // heap stream: new values never contain a container made during the run
+	objs               []*hobj // heap stream: the objects of the initial heap
+	triple             bool    // oracle stream: the last alternatives() call returned an (A[i], A, A[j]) list
+	growRandom         int     // oracle stream: random |= cases with such a list and a slice-returning body
+	grow, growExposing int     // heap stream: growth scenarios generated / whose first write grows over hidden cells
 }
 
 func newGen(r *Rng) *gen { return &gen{r: r} }
@@ -244,6 +251,17 @@ func chain(steps []string) string {
 func (g *gen) alternatives(v any) []string {
 	r := g.r
 	base := g.walk(v, 3)
+	g.triple = false
+	if len(base) > 0 && r.Chance(1, 10) {
+		// an array path between two element paths of the same array, in this order (A[i], A, A[j]): the second
+		// path hands a copy the reduction owns to the body, the third writes into what the body returned
+		par := base[:len(base)-1]
+		el := func() string {
+			return chain(append(append([]string{}, par...), g.pick("[0]", "[1]", "[2]", "[3]", "[4]", "[-1]", "[5]")))
+		}
+		g.triple = true
+		return []string{el(), chain(par), el()}
+	}
 	alts := []string{chain(base)}
 	n := 1 + r.Intn(3)
 	for len(alts) < n+1 {
@@ -414,6 +432,7 @@ func (g *gen) randomCase() *Case {
 		}
 	}
 	var p string
+	g.triple = false
 	if r.Chance(1, 2) {
 		alts := g.alternatives(cv)
 		p = "(" + strings.Join(alts, ", ") + ")"
@@ -439,8 +458,14 @@ func (g *gen) randomCase() *Case {
 		return c
 	case k < 52:
 		f := bodies[r.Intn(len(bodies))]
+		if g.triple && r.Chance(1, 2) {
+			f = bodies[len(bodies)-7+r.Intn(7)] // the slice-returning bodies
+		}
+		if g.triple && strings.Contains(f.src, ":") {
+			g.growRandom++
+		}
 		c := eqCase("modify", pre, p+" |= ("+f.src+")", "_mref("+p+"; ("+f.src+"))", input)
-		c.P, c.ScalarF = p, f.scalar
+		c.P, c.ScalarF, c.F = p, f.scalar, f.src
 		return c
 	case k < 64:
 		x := assignRhs[r.Intn(len(assignRhs))]
@@ -453,6 +478,7 @@ func (g *gen) randomCase() *Case {
 		c := eqCase("arith", pre, p+" "+op+"= ("+x+")", "("+x+") as $x | _mref("+p+"; . "+op+" $x)", input)
 		c.P = p
 		c.ScalarF = op != "+" && op != "//" && op != "-" && op != "*"
+		c.F, c.Bind = ". "+op+" $x", "("+x+") as $x | "
 		return c
 	case k < 80:
 		c := eqCase("del", pre, "del("+p+")", "_dref([path("+p+")])", input)
@@ -461,7 +487,7 @@ func (g *gen) randomCase() *Case {
 	case k < 84:
 		f := bodies[r.Intn(len(bodies))]
 		c := eqCase("map_values", pre, "map_values("+f.src+")", "_mref(.[]; ("+f.src+"))", input)
-		c.P, c.ScalarF = ".[]", f.scalar
+		c.P, c.ScalarF, c.F = ".[]", f.scalar, f.src
 		return c
 	case k < 87:
 		return eqCase("pick", pre, "pick("+p+")", ". as $v | reduce path("+p+") as $q (null; setpath($q; $v | getpath($q)))", input)
@@ -548,7 +574,7 @@ func fixedCases() []*Case {
 	var cs []*Case
 	mod := func(p, f, input string, scalar bool) {
 		c := eqCase("modify", "", p+" |= ("+f+")", "_mref("+p+"; ("+f+"))", input)
-		c.P, c.ScalarF = p, scalar
+		c.P, c.ScalarF, c.F = p, scalar, f
 		cs = append(cs, c)
 	}
 	asg := func(p, x, input string) {
@@ -751,7 +777,7 @@ func (g *gen) nestedBody(d int) nbody {
 
 func nestedCase(op, p string, b nbody, input string) *Case {
 	c := eqCase(op, "", p+" |= ("+b.impl+")", "_mref("+p+"; ("+b.ref+"))", input)
-	c.P, c.ScalarF = p, false
+	c.P, c.ScalarF, c.F, c.FR = p, false, b.impl, b.ref
 	return c
 }
 
@@ -833,6 +859,59 @@ func nestedCases() []*Case {
 	return cs
 }
 
+// ---- systematic block: update bodies that return a prefix / inner slice of their input, under path lists in
+// which the path of an ARRAY lies between paths of its elements (A[i], A, A[j]): the first path makes the
+// reduction own a copy of the array, the second hands that copy to the body, which returns a slice sharing
+// its backing array, the third writes at or beyond the length of that slice (in-place growth over the cells
+// the slice hides, fix 73ac0b6; or reallocation).  Also pairs (A, A[j]) (the array is still the input's:
+// nothing may be written in place) and four paths (two writes after the slice). ----
+var sliceBodies = []string{
+	"if type == \"array\" then .[:1] else 10 end", "if type == \"array\" then .[0:1] else 10 end",
+	"if type == \"array\" then .[:2] else . end", "if type == \"array\" then .[:0] else 10 end",
+	"if type == \"array\" then .[1:2] else 10 end", "if type == \"array\" then .[:-1] else 10 end",
+	"if type == \"array\" then (.[:2] | .[:1]) else [.] end", ".[:1]?", ".[0:1]? // 10",
+	"if type == \"array\" then (.[:1], .) else 10 end", "if type == \"array\" then first(.[:1], 5) else null end",
+}
+
+func growCases() []*Case {
+	var cs []*Case
+	add := func(op string, alts []string, f, input string) {
+		p := "(" + strings.Join(alts, ", ") + ")"
+		c := eqCase(op, "", p+" |= ("+f+")", "_mref("+p+"; ("+f+"))", input)
+		c.P, c.ScalarF, c.F = p, false, f
+		cs = append(cs, c)
+	}
+	type base struct {
+		arr   string // path of the array
+		el    func(i int) string
+		input string
+	}
+	bases := []base{
+		{".a", func(i int) string { return fmt.Sprintf(".a[%d]", i) }, `{"a":[1,2,3]}`},
+		{".", func(i int) string { return fmt.Sprintf(".[%d]", i) }, `[1,2,3]`},
+		{".[1]", func(i int) string { return fmt.Sprintf(".[1][%d]", i) }, `[0,[1,2,3,4],5]`},
+		{".a.b", func(i int) string { return fmt.Sprintf(".a.b[%d]", i) }, `{"a":{"b":[[1],[2],[3]],"c":[7]}}`},
+	}
+	for _, b := range bases {
+		for _, f := range sliceBodies {
+			for i := 0; i < 3; i++ {
+				for j := 0; j < 6; j++ {
+					add("modify-grow", []string{b.el(i), b.arr, b.el(j)}, f, b.input)
+				}
+			}
+			for j := 0; j < 6; j++ {
+				add("modify-grow", []string{b.arr, b.el(j)}, f, b.input)
+				add("modify-grow", []string{b.el(0), b.arr, b.el(j), b.el((j + 2) % 6)}, f, b.input)
+				add("modify-grow", []string{b.el(1), b.arr, b.arr, b.el(j)}, f, b.input)
+			}
+			add("modify-grow", []string{b.el(0), b.arr, b.arr + "[1:]"}, f, b.input)
+			add("modify-grow", []string{b.el(0), b.arr, b.arr + "[2:4]"}, f, b.input)
+			add("modify-grow", []string{b.el(0), b.arr, b.arr + "[-1]"}, f, b.input)
+		}
+	}
+	return cs
+}
+
 // ---- regression cases for what was repaired or seeded before: run first, deterministic ----
 func regressionCases() []*Case {
 	var cs []*Case
@@ -845,6 +924,9 @@ func regressionCases() []*Case {
 	mod("(.[2],.[0:1][1])", "7", "7", "[1,2,3]")
 	mod("(.[0],.[0:2][3])", "7", "7", "[1,2,3,4]")
 	eq("(.[2],.[0:1][1]) = 7", "7 as $x | _aref((.[2],.[0:1][1]); $x)", "[1,2,3]")
+	// D11 (73ac0b6): in-place growth of a prefix slice returned by the update body exposed stale elements
+	mod("(.a[0],.a,.a[2])", "if type==\"array\" then .[0:1] else 10 end", "if type==\"array\" then .[0:1] else 10 end", `{"a":[1,2,3]}`)
+	mod("(.[0],.,.[3])", ".[:1]? // 10", ".[:1]? // 10", "[1,2,3,4]")
 	// D6 (96ad5a7): deleteEmpty sweeps only what delpaths copied
 	eq("del(.a.q)", "_dref([path(.a.q)])", `{"a":{"q":1},"b":{"c":[1],"d":{"e":2}}}`)
 	eq("del(.b.c[0], .a)", "_dref([path(.b.c[0], .a)])", `{"a":{"q":1},"b":{"c":[1],"d":{"e":2}}}`)
